@@ -176,3 +176,9 @@ Definition params_ok (p : params) : bool :=
   let d := PrimFloat.sub (p_dmax p) (p_dmin p) in
   let q := PrimFloat.div d (p_bsize p) in
   finite_f d && finite_f (p_bsize p) && PrimFloat.ltb 0 (p_bsize p) && finite_f q && PrimFloat.ltb q two63.
+
+(* nbin mode on constant data gives binsize = (max - min) / nbin = 0: every quotient is NaN or
+   infinite, no datum has a valid bin index (all counts are 0).  Also covered by theorems. *)
+Definition zero_f (f : float) : bool :=
+  match Prim2SF f with S754_zero _ => true | _ => false end.
+Definition spec_ok (p : params) : bool := params_ok p || zero_f (p_bsize p).
